@@ -67,6 +67,8 @@ fn leaves() -> Vec<Value> {
         Value::String("héllo→".to_symbol()),
         Value::String("".to_symbol()),
         Value::Code(e),
+        // a code value whose root node carries a real source location (anything the parser produces does)
+        Value::Code(Expr::Literal(Literal::Int(7)).into_id(mimium_lang::utils::metadata::Location { span: 3..9, path: std::path::PathBuf::from("demo.mmm") })),
         Value::ErrorV(e),
         Value::Closure(e, vec![], Environment::new()),
         Value::Fixpoint("f".to_symbol(), e),
@@ -475,6 +477,13 @@ fn run_wasm_sched(src: &str, times: usize) -> Result<Vec<f64>, String> {
     Ok(out)
 }
 fn branch_state_programs() -> Vec<(String, Vec<f64>, String)> {
+    let mut v = branch_state_programs0();
+    // a delay whose maximum is not integral, followed by another cell: the run-time length must be the published one
+    v.push(("fn cnt(){ self + 1.0 }\nfn dsp(){\n  delay(2.5, 100.0, 1.0)*0.0 + cnt()\n}\n".to_string(), vec![1.0, 2.0, 3.0, 4.0, 5.0, 6.0, 7.0, 8.0], "delay with a fractional maximum in front of a counter".to_string()));
+    v.push(("fn cnt(){ self + 1.0 }\nfn dsp(){\n  delay(3.75, 9.0, 2.0)*0.0 + cnt() + delay(1.5, 7.0, 1.0)*0.0\n}\n".to_string(), vec![1.0, 2.0, 3.0, 4.0, 5.0, 6.0, 7.0, 8.0], "two delays with fractional maxima around a counter".to_string()));
+    v
+}
+fn branch_state_programs0() -> Vec<(String, Vec<f64>, String)> {
     vec![
         ("fn cnt(){ self + 1.0 }\nfn sel(c){\n  if (c) { cnt() } else { cnt()*10.0 }\n}\nfn dsp(){\n  let a = sel(0.0)\n  let b = cnt()\n  a + b*1000.0\n}\n".to_string(),
          vec![1010.0, 2020.0, 3030.0, 4040.0], "counter in both branches, else path taken, another counter after the if".to_string()),
@@ -562,6 +571,17 @@ fn schedvm_programs() -> Vec<(String, Vec<f64>, String)> {
         let expect: Vec<f64> = (0..6usize).map(|t| (if t1 <= t {1.0} else {0.0}) + (if t2 <= t {10.0} else {0.0}) + (if t3 <= t {100.0} else {0.0})).collect();
         v.push((src, expect, format!("one-shots at {t1},{t2},{t3}")));
     }}}
+    // new tasks arriving while OTHER tasks are pending (more new ones than pending ones)
+    v.push(("let a = 0.0\nlet b = 0.0\nlet c = 0.0\nfn ta(){\n  a = a + 1.0\n  ta@(now+1.0)\n}\nfn tb(){\n  b = b + 1.0\n  tb@(now+1.0)\n}\nfn tc(){\n  c = c + 100.0\n}\nta@1.0\ntb@1.0\ntc@4.0\nfn dsp(){\n  a + b + c\n}\n".to_string(),
+            vec![0.0, 2.0, 4.0, 6.0, 108.0, 110.0, 112.0, 114.0], "a one-shot pending behind two period-1 tickers".to_string()));
+    v.push(("let acc = 0.0\nfn late1(){\n  acc = acc + 1000.0\n}\nfn late2(){\n  acc = acc + 10000.0\n}\nfn small(){\n  acc = acc + 1.0\n}\nlate1@5.0\nlate2@6.0\nfn dsp(){\n  let _ = if (now == 2.0) {\n    small@3.0\n    small@3.0\n    small@3.0\n    0.0\n  } else {\n    0.0\n  }\n  acc\n}\n".to_string(),
+            vec![0.0, 0.0, 0.0, 3.0, 3.0, 1003.0, 11003.0, 11003.0], "a burst of three tasks scheduled from dsp while two later tasks are pending".to_string()));
+    {
+        let n = 24usize;
+        let expect: Vec<f64> = (0..n).map(|t| { let fast = 3.0 * t as f64; let slow = if t >= 2 { ((t - 2) / 4 + 1) as f64 } else { 0.0 }; slow * 1000.0 + fast }).collect();
+        v.push(("let fast = 0.0\nlet slow = 0.0\nfn f1(){\n  fast = fast + 1.0\n  f1@(now+1.0)\n}\nfn f2(){\n  fast = fast + 1.0\n  f2@(now+1.0)\n}\nfn f3(){\n  fast = fast + 1.0\n  f3@(now+1.0)\n}\nfn s(){\n  slow = slow + 1.0\n  s@(now+4.0)\n}\ns@2.0\nf1@1.0\nf2@1.0\nf3@1.0\nfn dsp(){\n  slow * 1000.0 + fast\n}\n".to_string(),
+                expect, "a period-4 chain next to three period-1 chains".to_string()));
+    }
     // more than a thousand tasks pending at once (scheduled from global scope through a call tree), plus a chain / a burst
     let bulk = "fn s4(){\n s1()\n s1()\n s1()\n s1()\n}\nfn s16(){\n s4()\n s4()\n s4()\n s4()\n}\nfn s64(){\n s16()\n s16()\n s16()\n s16()\n}\nfn s256(){\n s64()\n s64()\n s64()\n s64()\n}\nfn s1024(){\n s256()\n s256()\n s256()\n s256()\n}\n";
     v.push((format!("let x = 0.0\nfn far(){{\n  x = x + 1000.0\n}}\nfn s1(){{\n  far@100000.0\n}}\n{bulk}fn tick(){{\n  x = x + 1.0\n  tick@(now+1.0)\n}}\ns1024()\ns64()\ntick@1.0\nfn dsp(){{\n  x\n}}\n"),
